@@ -125,6 +125,7 @@ type Obl struct {
 	Clause  string
 	Mode    Mode
 	vc      *VC
+	Sliced  bool   // emit only the assumptions that mention a symbol in the goal's cone of definitions
 	Failed  string // non-empty: generation failed (unsupported construct); never discharged
 	Tier    string
 	Timeout int
@@ -142,6 +143,7 @@ type Obl struct {
 
 // VC is the verification context of one function under one contract.
 type VC struct {
+	needed map[string]bool // symbols mentioned by this VC's context and obligations (computed once, for prelude pruning)
 	eng   *Engine
 	fn    *ssa.Function
 	con   *Contract
